@@ -24,6 +24,7 @@ RULE = (
     "to the first lookup path); (d) multi-file cases: the compiler object that has just compiled one of the imported files "
     "compiles the main file to the same ops (a workspace build). Non-trivial = call depth >= 2 or a macro with callees of different depth, or a return / "
     "label inside a macro, or >= 2 files; distinct by content hash."
+    ' An environment stage (4 / 12 child interpreters under the C locale with UTF-8 mode off) compiles a project whose imported files hold non-ASCII strings and compares the ops with those computed here. Lookup directories are listed in a drawn order; a third of the workspaces reach the main file through a symbolic link.'
 )
 ASSUMPTIONS = [
     "the performance-progress constant is never passed through a macro parameter; macro bodies do not use a free constant named like a parameter (variable capture is not specified)",
